@@ -104,8 +104,10 @@ def build(run):
 
 
 def run(run, replay=None):
+    from units.C03 import cex as _cex
+    run.fallbacks.append(("refinement subtyping (programs checked by the real compiler)", lambda: _cex.find(run)))
     unit = build(run)
     res = unit.run(rlimit=60)
-    run.add_verus(unit, res)
+    run.add_verus(unit, res, cex_finder=lambda f: _cex.find(run, f))
     run.assumptions.append("Callee contracts assumed, not proved: Context::try_cmp and supertype_of_tp on integer-constant TyParams (exact ordering / equality), TyParam::has_upper_bound/has_lower_bound (true on integer constants), TyParam::eq complete on integer constants.")
     run.assumptions.append("Not carried: the (And, And), (Or, Or), (lhs, Or), (Or, rhs), Call and General* arms (iterator/closure/Set::get_by/reduce_preds) and structural_supertype_of's refinement arm that calls this function. Observation (read, not machine-checked): the (And, And) arm checks for every rhs conjunct that SOME lhs conjunct is a super-predicate of it, where soundness needs that for every lhs conjunct some rhs conjunct is below it.")
